@@ -54,6 +54,17 @@ def compute_val_score(clf, X, y, batch_size, gemini_objective):
 
 def _path(clf, X, y=None, alpha_multiplier=1.05, min_features=2, keep_threshold=0.9,
           early_stopping_factor=0.99, max_patience=10):
+    # The path moves the penalty of the model while it runs: whatever happens, give the hyperparameter back so that
+    # the estimator can be fitted or walked along the path again with the same outcome
+    initial_alpha = clf.alpha
+    try:
+        return _run_path(clf, X, y, alpha_multiplier, min_features, keep_threshold, early_stopping_factor, max_patience)
+    finally:
+        clf.alpha = initial_alpha
+
+
+def _run_path(clf, X, y=None, alpha_multiplier=1.05, min_features=2, keep_threshold=0.9,
+              early_stopping_factor=0.99, max_patience=10):
     if alpha_multiplier <= 1:
         warnings.warn(f"The alpha multiplier is lower or equal to 1. This will not increase alpha during the path. "
                       f"Setting it again to default parameters: 1.05")
